@@ -91,7 +91,7 @@ def S(*ops):
 fams = []
 def fam(name, main, cs, tier='quick', witness=False, w=1):
     defs = ['NCO=%d' % len(cs), 'MAINSCRIPT=' + S(*main.split())] + ['CS%d=%s' % (i, S(*x.split())) for i, x in enumerate(cs)] + (['WITNESS=1'] if witness else [])
-    fams.append(Family(name + ('-witness' if witness else ''), 'h_c03.c', 'h_coro', defs, opts={'time_limit': 420}, tier=tier, witness=witness, weight=w, validate=3))
+    fams.append(Family(name + ('-witness' if witness else ''), 'h_c03.c', 'h_coro', defs, opts={'time_limit': 900}, tier=tier, witness=witness, weight=w, validate=3))
 fam('yield-resume-return', 'START0 RESUME0 RESUME0', ['YIELD YIELD RET'])
 fam('yield-resume-return', 'START0 RESUME0 RESUME0', ['YIELD YIELD RET'], witness=True)
 fam('exit-and-restart', 'START0 RESUME0 START0 RESUME0', ['YIELD EXIT'])
